@@ -127,6 +127,17 @@ type c18Case struct {
 	Home  *c18File  `json:"home,omitempty"` // ~/.jq as a file
 	Mods  []string  `json:"mods"`           // module names (modulemeta)
 	Vars  []c18Var  `json:"vars"`
+	// Globals: names (without $) bound by WithVariables / --arg to the string "G:<name>"; visible in the main
+	// program and in every module, unless a data import of the same file binds the name again
+	Globals []string `json:"globals,omitempty"`
+}
+
+func (cs *c18Case) newEnv() *c18Env {
+	env := &c18Env{}
+	for _, g := range cs.Globals {
+		env.vars = append(env.vars, c18Bind{call: c18Call{N: g, V: 1}, key: "$" + g, val: "G:" + g})
+	}
+	return env
 }
 
 const c18Cwd = "cwd"
@@ -381,7 +392,7 @@ func (m *c18Model) imp(f *c18File, im c18Imp, env *c18Env, depth int) {
 		m.file(g, env, depth+1)
 	default:
 		m.nAlias++
-		sub, base := &c18Env{}, 0
+		sub, base := m.cs.newEnv(), 0
 		if m.leaky {
 			sub.funcs = append(sub.funcs, env.funcs...)
 			sub.vars = append(sub.vars, env.vars...)
@@ -482,7 +493,7 @@ func (m *c18Model) file(f *c18File, env *c18Env, depth int) {
 // program processes ~/.jq (if it is a file on the search path) and the main
 // program and returns the calls of every visible name with expected values.
 func (m *c18Model) program() (calls []c18Call, exp []any) {
-	env := &c18Env{}
+	env := m.cs.newEnv()
 	if m.cs.Home != nil {
 		if m.file(m.cs.Home, env, 1); m.fail != "" {
 			return nil, nil
@@ -613,6 +624,13 @@ func (p *c18Inl) call(prefix string) func(c18Call) string {
 					return p.vars[i][1]
 				}
 			}
+			if k.V == 1 {
+				for _, g := range p.cs.Globals {
+					if g == k.N {
+						return "$" + g // a global variable of the compilation, visible everywhere
+					}
+				}
+			}
 			return "UNBOUND_" + k.N
 		}
 		s := prefix
@@ -723,6 +741,19 @@ func c18FromTrace(tr run.Trace) c18Out {
 }
 
 func c18RunLib(src string, opts ...gojq.CompilerOption) c18Out {
+	return c18RunLibGlobals(src, nil, opts...)
+}
+
+func c18RunLibGlobals(src string, globals []string, opts ...gojq.CompilerOption) c18Out {
+	var vals []any
+	if len(globals) > 0 {
+		names := make([]string, len(globals))
+		for i, g := range globals {
+			names[i] = "$" + g
+			vals = append(vals, "G:"+g)
+		}
+		opts = append(opts, gojq.WithVariables(names))
+	}
 	res := run.Compile(src, opts...)
 	if res.Panic != "" {
 		return c18Out{bad: "panic in " + res.Stage + ": " + res.Panic}
@@ -730,7 +761,7 @@ func c18RunLib(src string, opts ...gojq.CompilerOption) c18Out {
 	if res.Err != nil {
 		return c18Out{cerr: res.Stage + ": " + res.Err.Error()}
 	}
-	return c18FromTrace(run.RunCode(res.Code, nil, nil, 2000000, 0))
+	return c18FromTrace(run.RunCode(res.Code, nil, vals, 2000000, 0))
 }
 
 type c18Runner struct {
@@ -790,9 +821,13 @@ func c18ParseOut(b []byte) ([]any, error) {
 
 func (r *c18Runner) run(src string) c18Out {
 	if r.cs.Mode == "lib" {
-		return c18RunLib(src, gojq.WithModuleLoader(gojq.NewModuleLoader(r.libArgs())))
+		return c18RunLibGlobals(src, r.cs.Globals, gojq.WithModuleLoader(gojq.NewModuleLoader(r.libArgs())))
 	}
-	res := r.cli([]string{"-n", "-c", src}, "")
+	args := []string{"-n", "-c"}
+	for _, g := range r.cs.Globals {
+		args = append(args, "--arg", g, "G:"+g)
+	}
+	res := r.cli(append(args, src), "")
 	switch {
 	case res.TimedOut || res.StartErr != nil:
 		return c18Out{incon: "cli-timeout-or-start"}
@@ -982,7 +1017,11 @@ func (r *c18Runner) metaCheck(c *run.Ctx) *run.Fail {
 		for _, n := range names {
 			in = append(in, strconv.Quote(n))
 		}
-		res := r.cli([]string{"-c", "modulemeta"}, strings.Join(in, "\n"))
+		margs := []string{"-c"}
+		for _, g := range cs.Globals {
+			margs = append(margs, "--arg", g, "G:"+g) // ~/.jq is compiled too and may refer to them
+		}
+		res := r.cli(append(margs, "modulemeta"), strings.Join(in, "\n"))
 		if res.TimedOut || res.StartErr != nil {
 			c.Inconclusive("cli-timeout-or-start")
 			return nil
@@ -1166,7 +1205,7 @@ var kC18 = run.NewKind("c18.tree", func(c *run.Ctx, t c18Case) *run.Fail {
 		isrc, ifail := c18Inline(cs, v, calls)
 		iout := c18Out{cerr: ifail}
 		if ifail == "" {
-			iout = c18RunLib(isrc)
+			iout = c18RunLibGlobals(isrc, cs.Globals)
 		}
 		if iout.incon != "" {
 			c.Inconclusive("inline-" + iout.incon)
